@@ -237,6 +237,9 @@ func (r *ReplicateMeteImpl) RemoveTaskMsg(ctx context.Context, taskID string, ms
 	if taskMsgs, ok := r.dropCollectionMsgs[taskID]; ok {
 		delete(taskMsgs, msgID)
 	}
+	if taskMsgs, ok := r.dropPartitionMsgs[taskID]; ok {
+		delete(taskMsgs, msgID)
+	}
 	return nil
 }
 
